@@ -114,7 +114,7 @@ def rule_R(ck, lib, RID):
             continue
         if d["parse_err"]:
             if d.get("incomplete"):
-                ok = not hs and x.kind == "return" and x.value == inp
+                ok = not hs and x.kind in ("return", "err") and x.value == inp
                 ck.judge(ok, RID, key, "Incomplete: silent, returns the input unchanged",
                          "Incomplete path must report nothing and return the input unchanged (reports: %d, exit: %s %s)" % (len(hs), x.kind, show_term(x.value) if x.value else ""), where, data)
             elif d.get("incomplete") is False:
@@ -167,7 +167,7 @@ def rule_rest(ck, lib):
             ct = ("call",) + cmds[0][1:]
             if ps.decided(pathsum.St(x.conds), ct, OK) is False:
                 n += 1
-                ok = x.kind == "err" and x.value == ("ctor", ERR, (("payload", ct, ERR, 0),))
+                ok = x.kind in ("return", "err") and x.value == ("ctor", ERR, (("payload", ct, ERR, 0),))
                 ck.judge(ok, "C06-V", "execute:handler-error-path#%d" % n, "execute returns Err(e) with e unchanged",
                          "execute does not return the handler's error unchanged: %s %s" % (x.kind, show_term(x.value)), data={"path": pathsum.show_exit(x)[:1500]})
                 later = [e for e in x.effects if e[0] == "call" and x.effects.index(e) > x.effects.index(cmds[0])]
